@@ -85,6 +85,10 @@ func (e *Engine) callExternal(fn *types.Func, recv Value, args []Value, cx *ast.
 			}
 		}
 		return VTerm{T: acc, Typ: sl.Elem}
+	case "fmt.Sprintf", "fmt.Sprint", "time.Time.String", "time.Time.Format":
+		return VTerm{T: e.fresh("str", SStr), Typ: types.Typ[types.String]}
+	case "time.Now":
+		return VTerm{T: e.fresh("now", SInt), Typ: fn.Type().(*types.Signature).Results().At(0).Type()}
 	case "errors.New", "fmt.Errorf":
 		r := e.fresh("err", SRef)
 		st.assume(mkNot(mkEq(r, mkConst("nil", SRef))))
